@@ -31,12 +31,17 @@ Definition gpoint := (xreal * xreal * xreal * xreal)%type.
 (* codes: 1 PDF negative / not finite, 2 CDF outside [0,1], 3 CDF not monotone,
           4 PDF/CDF inconsistent (quadrature; each CDF value may be off by the property's 1e-9), 5 CDF symmetry, 6 PDF symmetry,
           7 CDF at the centre / at +-inf, 8 NaN handling *)
-Fixpoint grid_walk (pts : list gpoint) (prev : option (xreal * Q)) (i : Z) : option (Z * Z) :=
+(* [atol]: absolute slack of the monotonicity test.  0 for the normal CDF (erfc keeps full relative accuracy in
+   the lower tail).  1e-12 for the t CDF: the code computes CDF(x) for x < 0 as 1 - CDF(-x) and the two continued
+   fractions of BetaInc meet with a difference of a few 1e-14 (V/2 ulps of relative conditioning), so its values
+   carry an ABSOLUTE error of that size; the resolution at which a downward step is reported is the same 1e-12
+   as in the scans of op 6. *)
+Fixpoint grid_walk (atol : Q) (pts : list gpoint) (prev : option (xreal * Q)) (i : Z) : option (Z * Z) :=
   match pts with
   | [] => None
   | (x, pdf, cdf, gl) :: t =>
       match x with
-      | XNaN => if is_nan cdf then grid_walk t prev (i + 1)%Z else Some (i, 8%Z)
+      | XNaN => if is_nan cdf then grid_walk atol t prev (i + 1)%Z else Some (i, 8%Z)
       | _ =>
         match pdf, cdf with
         | XFin pq, XFin cq =>
@@ -48,14 +53,14 @@ Fixpoint grid_walk (pts : list gpoint) (prev : option (xreal * Q)) (i : Z) : opt
                          | _ => true end in
             if negb endok then Some (i, 7%Z) else
             let mono := match prev with
-                        | Some (px, pc) => if xle px x then Qleb (pc - tol_law * pc) cq else true
+                        | Some (px, pc) => if xle px x then Qleb (pc - tol_law * pc - atol) cq else true
                         | None => true end in
             if negb mono then Some (i, 3%Z) else
             let glok := match gl, prev with
                         | XFin g, Some (_, pc) => within (2 * tol_rel9 + tol_rel9 * Qabs (cq - pc)) (cq - pc) g
                         | _, _ => true end in
             if negb glok then Some (i, 4%Z) else
-            grid_walk t (Some (x, cq)) (i + 1)%Z
+            grid_walk atol t (Some (x, cq)) (i + 1)%Z
         | _, _ => Some (i, 1%Z)
         end
       end
@@ -74,8 +79,8 @@ Fixpoint grid_sym (c2 : Q) (a b : list gpoint) (i : Z) : option (Z * Z) :=
   | _, _ => None
   end.
 
-Definition check_grid (c2 : Q) (pts : list gpoint) : option (Z * Z) :=
-  match grid_walk pts None 0 with
+Definition check_grid (atol : Q) (c2 : Q) (pts : list gpoint) : option (Z * Z) :=
+  match grid_walk atol pts None 0 with
   | Some e => Some e
   | None => grid_sym c2 pts (rev pts) 0
   end.
@@ -225,7 +230,7 @@ Definition check_C05 (line : list Z) : list Z :=
       if negb (xsame (XFin (normal_mean mu sg)) me) then verdict V_MISMATCH tag (-1) [10%Z]
       else if negb (near (normal_variance mu sg) (sg * sg) va) then verdict V_MISMATCH tag (-1) [11%Z]
       else if negb (near elo (Qabs mu + 3 * sg) lo && near ehi (Qabs mu + 3 * sg) hi) then verdict V_MISMATCH tag (-1) [12%Z]
-      else match check_grid (2 * mu) pts with
+      else match check_grid 0 (2 * mu) pts with
            | Some (i, c) => verdict V_MISMATCH tag i [c]
            | None => match centre_ok mu 0 pts 0 with
                      | Some (i, c) => verdict V_MISMATCH tag i [c]
@@ -252,7 +257,7 @@ Definition check_C05 (line : list Z) : list Z :=
                   + (if Z.testbit gb 2 || Z.testbit gb 4 then 16 else 0) + (if Z.testbit gb 5 then 32 else 0))%Z in
       let '(elo, ehi) := tdist_bounds in
       if negb (xsame (XFin elo) lo && xsame (XFin ehi) hi) then verdict V_MISMATCH tag (-1) [12%Z]
-      else match check_grid 0 pts with
+      else match check_grid tol_law 0 pts with
            | Some (i, c) => verdict V_MISMATCH tag i [c]
            | None => match centre_ok 0 0 pts 0 with
                      | Some (i, c) => verdict V_MISMATCH tag i [c]
